@@ -190,6 +190,12 @@ def run(tier, seed):
         res.merge(r)
     res.coverage['part_a_dags'] = len(jobs)
     res.merge(_namemode_templates(None))
+    # forcing by name / task object / one-shot iterable in chains that hold shared task objects under other namespaces
+    from tcv.checks import c13
+    for sig, what in c13.namespace_scenarios():
+        if sig.startswith('forc'):
+            res.violations.append(Violation(f'shared tasks: {sig}', what, {'kind': 'shared-forcing'}))
+    res.add('evaluations')
     # Part B: histories
     plan = []
     chain3 = dag_world(3, {(0, 1), (1, 2)})
@@ -242,6 +248,9 @@ def replay(case):
     import tcv
 
     tcv.quiet_library()
+    if case.get('kind') == 'shared-forcing':
+        from tcv.checks import c13
+        return [Violation(f'shared tasks: {sig}', what, case) for sig, what in c13.namespace_scenarios() if sig.startswith('forc')]
     desc = case['desc']
     vs, c, ov = histories.run_history(desc, case['hist'], judge(desc, None), parameter_mode=not desc['name'].startswith('namemode'))
     return vs
